@@ -436,6 +436,7 @@ def run_arith(rep, facts):
         ("stream::parse_payload", SP + "::parse_payload", CURSORS, "buffer", {SP + "::is_record_boundary"}, None),
         ("stream::parse_head", SP + "::parse_head", CURSORS, "buffer", {SP + "::is_record_boundary"}, None),
         ("request::parse", RP + "::parse", ["input_len"], "input", {RP + "::move_input"} if facts.body(RP + "::move_input", required=False) else set(), None),
+        ("into_skip", RQ + "StateBuilder::into_skip", [], None, set(), None),
         ("SkipState::drive", RQ + "SkipState::drive", [], None, set(), None),
         ("GetValuesState::drive", RQ + "GetValuesState::drive", [], None, set(), None),
         ("ParamsState::drive", RQ + "ParamsState::drive", [], None, set(), None),
